@@ -79,6 +79,10 @@ func (k Keeper) OpenConsolidate(ctx sdk.Context, existingMtp *types.MTP, newMtp 
 		}
 	}
 
+	if err = k.CheckMTPHealthAfterHooks(ctx, existingMtp, baseCurrency); err != nil {
+		return nil, err
+	}
+
 	if err = k.CheckLowPoolHealthAndMinimumCustody(ctx, poolId); err != nil {
 		return nil, err
 	}
